@@ -28,7 +28,8 @@ struct H : drv::Harness
 		for (int i = 0; i < n; ++i)
 		{
 			int w = (int)rng.below(100);
-			if (w < 22) p.ops.push_back(Op("app"));
+			if (w < 4) p.ops.push_back(Op("app_on_write", { rng.range(200, 2500) }));   // an application send timed to land just after another thread of the session (timer, inbound) wrote to the socket
+			else if (w < 22) p.ops.push_back(Op("app"));
 			else if (w < 30) p.ops.push_back(Op("appref"));
 			else if (w < (is16 ? 45 : 55)) p.ops.push_back(Op("batch", { rng.range(2, 6) }));
 			else if (w < 65) p.ops.push_back(Op("papp"));
@@ -75,11 +76,15 @@ struct H : drv::Harness
 				if (it != new_by_seq.end() && it->second != m.raw && is16)
 				{
 					// the documented exception: a Logout sent when the session aborts reuses the number and ends the session
-					if (!(m.type() == "5")) r.fail("seqnum_reused", fam, "two distinct new messages carry MsgSeqNum " + std::to_string(seq) + ": " + m.brief());
+					// ... and a message an application thread sends while that Logout is going out (session already ending) finds the number not consumed
+					const bool after_abort_logout = it->second.find(std::string("\x01") + "35=5" + "\x01") != std::string::npos;
+					if (!(m.type() == "5") && !after_abort_logout) r.fail("seqnum_reused", fam, "two distinct new messages carry MsgSeqNum " + std::to_string(seq) + ": " + m.brief());
 				}
 				if (seq != expect_next && is16)
 				{
-					if (!(m.type() == "5" && seq == expect_next - 1))
+					auto prev = new_by_seq.find(seq);
+					const bool after_abort_logout = seq == expect_next - 1 && prev != new_by_seq.end() && prev->second.find(std::string("\x01") + "35=5" + "\x01") != std::string::npos;
+					if (!(m.type() == "5" && seq == expect_next - 1) && !after_abort_logout)
 						r.fail("seqnum_not_consecutive", fam + (m.type() == "D" ? ":app" : ":admin"), "new message " + m.brief() + " carries MsgSeqNum " + std::to_string(seq) + " but the previous new message implies " + std::to_string(expect_next));
 				}
 				if (seq >= expect_next) expect_next = seq + 1;
@@ -129,6 +134,15 @@ struct H : drv::Harness
 		{
 			const Op& op = p.ops[i];
 			if (op.k == "app") { w.app_send(w.next_app_id()); ++nsent_ops; }
+			else if (op.k == "app_on_write")
+			{
+				// wait (bounded) until some other thread of the session has put bytes on the wire, then send at that very scheduling point:
+				// the other sender is still between its socket write and its bookkeeping
+				const size_t mark = w.impl ? w.impl->tx.size() : 0;
+				if (w.impl && sim::settle_watch([&]() { return w.impl && w.impl->tx.size() > mark; }, op.arg(0) * 1000000ll)) sim::count("send_right_after_foreign_write");
+				// (if what was written is the session's own abort Logout the session is over: an application would not send into it)
+				if (w.alive() && w.ses->st() != States::st_logoff_sent && w.ses->st() != States::st_session_terminated) { w.app_send(w.next_app_id()); ++nsent_ops; }
+			}
 			else if (op.k == "appref") { w.app_send_ref(w.next_app_id()); ++nsent_ops; }
 			else if (op.k == "batch") { std::vector<std::string> ids; for (int k = 0; k < op.arg(0); ++k) ids.push_back(w.next_app_id("B")); w.app_batch(ids); ++nsent_ops; sim::count("op_batch"); }
 			else if (op.k == "papp") w.peer.send_msg("D", Peer::order_body("P" + std::to_string(w.peer.out_seq)));
